@@ -244,6 +244,11 @@ def addon_parts(edzed, spec, kw):
             await asyncio.sleep(0.05)
         ns['stop_async'] = stop_async
         kw['stop_timeout'] = 0 if addon == 'stop_async_disabled' else 2.0
+    if addon == 'async_init':
+        # AddonAsyncInit placed before the FSM in the bases: the block waits (shortly) for a
+        # first value during the asynchronous initialisation, then it is an ordinary FSM
+        kw['init_timeout'] = 0.2
+        return (edzed.AddonAsyncInit,), ns
     # addon == 'plain': the add-on without any asynchronous clean-up (e.g. the class only
     # wants _create_monitored_task) - stop() must still be called and cancel the timer
     return (edzed.AddonAsync,), ns
@@ -473,6 +478,9 @@ def run_case(case, ctx):
 
     def setup(loop):
         hist.loop = loop
+        # (a few FSMs: thousands of iterations / hundreds of timers at one instant = busy loop)
+        loop.stall_limit = 3000
+        loop.stall_timer_limit = 200
         clock = vclock.VClock(loop, BASE)
         vclock.install(clock)
         clock_holder['clock'] = clock
@@ -482,7 +490,10 @@ def run_case(case, ctx):
             loop.latency = lambda: rng.random() * lat
 
     try:
+        # (the reference point of loop.time() is undefined and differs from loop to loop)
         out = harness.run_sim(build, drive, setup=setup,
+                              start=ctx.rng('loopstart', core.case_hash(case)).choice(
+                                  [1000.0, 1000.0, 7.25, 3000.5, 20000.0]),
                               storage=storage if case.get('restore') else None,
                               drain=30.0 if case.get('failed_start') else 86400.0,
                               drain_budget=2000)
@@ -494,6 +505,7 @@ def run_case(case, ctx):
     state['error'] = out['sim'].circuit.error
     state['exc'] = out['exc']
     state['stop_vt'] = loop.after_main['vt']
+    state['loop_t0'] = loop.t0
     state['drain_exc'] = getattr(loop, 'drain_exc', None)
     state['live_after_stop'] = [(h._when,) for h in loop.after_main['timers']]
     fsm = out['objs']['fsm']
@@ -526,7 +538,7 @@ def judge(case, hist, state, ctx):
     if rst:
         model.state = rst['state']
         model.initialized = True
-        model.armed = (rst['state'], 1000.0 + rst['remaining'], model.timed[rst['state']][1])
+        model.armed = (rst['state'], state['loop_t0'] + rst['remaining'], model.timed[rst['state']][1])
         if spec['kind'] == 'inputexp':
             model.value = rst['value']
     E = hist.entries
@@ -825,6 +837,10 @@ def random_timer(rng):
         targs['t_period'] = rng.choice([1.0, 3.0, '0m2s'])
     elif r < 0.8:
         targs['t_off'] = rng.choice(DURS)
+    elif r < 0.9:
+        # an explicit None (= 'not set here, the default applies') after a real duration
+        targs['t_on'] = rng.choice([d for d in DURS if d is not None] or [1.0])
+        targs['t_off'] = None
     inst = {}
     if 't_period' in targs:
         inst['on'] = inst['off'] = truth(targs['t_period']) / 2
@@ -860,7 +876,7 @@ def random_inputexp(rng):
         spec['initdef'] = 'v_init'
     stims = []
     for n in range(rng.randint(1, 5)):
-        data = {'value': f"v{n}"}
+        data = {'value': f"v{n}" if rng.random() < 0.6 else rng.choice(['same', 'same', 'v_init'])}
         d = rng.choice(EV_DURS if dur is not None else EV_DURS[3:])
         if d is not None:
             data['duration'] = d
@@ -902,7 +918,7 @@ def gen(ctx):
                 case['restore'] = {'state': rng.choice(tstates),
                                    'remaining': rng.choice([0.5, 2.0, 5.0]), 'value': 'restored'}
         if spec['kind'] == 'generic' and rng.random() < 0.25:
-            spec['addon'] = rng.choice(['plain', 'stop_async', 'stop_async_disabled'])
+            spec['addon'] = rng.choice(['plain', 'stop_async', 'stop_async_disabled', 'async_init'])
         if rng.random() < 0.04:
             ev = {'generic': 'go1', 'timer': 'start', 'inputexp': 'put'}[spec['kind']]
             case['failed_start'] = [ev, {'duration': rng.choice([0.5, 3.0, '0m2s']), 'value': 'x'}]
@@ -927,10 +943,125 @@ def run_one(case, ctx):
     ctx.case_done(case, nontrivial, sample)
 
 
+def run_two_lives(case, ctx):
+    """
+    A persistent Timer leaves (or re-enters) its timed state during the CLEAN-UP of life 1 (the
+    result event of an output block's stop_data); the application is then restarted from the
+    storage: the timer that was cancelled must not come back - no stale timed event in life 2.
+    """
+    import edzed
+    dur, ev = case['dur'], case['ev']
+    storage = harness.Storage()
+    info = {}
+
+    def build(life, log):
+        class Sink(edzed.SBlock):
+            def init_regular(self):
+                self.set_output(0)
+
+            def _event(self, etype, data):
+                log.append((round(asyncio.get_running_loop().time() - 1000.0, 6), etype,
+                            data.get('state')))
+        sink = Sink('sink')
+        tmr = edzed.Timer('tmr', t_on=dur, persistent=True, restartable=True,
+                          on_enter_on=edzed.Event(sink, 'enter'), on_exit_on=edzed.Event(sink, 'exit'),
+                          on_enter_off=edzed.Event(sink, 'enter'))
+        if life == 1:
+            # (blocks with asynchronous clean-up are stopped first: the Timer is still running
+            # when the result of the stop_data arrives)
+            async def job(value):
+                return value
+            edzed.OutputAsync('oa', coro=job, mode='wait', stop_data={'value': 1}, on_error=None,
+                              on_success=edzed.Event(tmr, ev), stop_timeout=5)
+        return {'tmr': tmr}
+
+    def mksetup(offset):
+        def setup(loop):
+            vclock.install(vclock.VClock(loop, BASE + _dt.timedelta(seconds=offset)))
+        return setup
+
+    log1, log2 = [], []
+
+    async def drive1(sim, objs):
+        edzed.ExtEvent(objs['tmr'], 'start').send()
+        await asyncio.sleep(case['run'])
+        info['state_before_stop'] = objs['tmr'].state
+        return True
+    try:
+        out1 = harness.run_sim(lambda: build(1, log1), drive1, storage=storage, setup=mksetup(0.0))
+    finally:
+        vclock.uninstall()
+    where = f"two lives {case}"
+    if out1['exc'] is not None or not out1['started']:
+        raise core.Violation('harness-run-exception', f"{where}: life 1: {out1['exc']!r}")
+    final_state = out1['objs']['tmr'].state
+    t_end1 = out1['loop'].after_main['vt'] - 1000.0      # = when the clean-up event arrived
+    ctx.count('two_life_cases')
+    if info['state_before_stop'] != 'on':
+        raise core.Inconclusive(f"C04: {where}: the timer was not running at the stop")
+    downtime = case['down']
+
+    async def drive2(sim, objs):
+        info['state2'] = objs['tmr'].state
+        await asyncio.sleep(3 * dur)
+        info['state2_late'] = objs['tmr'].state
+        return True
+    try:
+        out2 = harness.run_sim(lambda: build(2, log2), drive2, storage=storage,
+                               setup=mksetup(t_end1 + downtime))
+    finally:
+        vclock.uninstall()
+    if out2['exc'] is not None or not out2['started']:
+        raise core.Violation('harness-run-exception', f"{where}: life 2: {out2['exc']!r}")
+    exits = [e for e in log2 if e[1] == 'exit']
+    if ev == 'stop':
+        # left the timed state during the clean-up: off, and it stays off
+        if final_state != 'off':
+            raise core.Inconclusive(f"C04: {where}: life 1 ended in {final_state!r}")
+        if info['state2'] != 'off' or exits:
+            raise core.Violation(
+                'stale-timed-event',
+                f"{where}: the Timer was switched off during the clean-up of life 1 (its timer "
+                f"cancelled); after the restart it is {info['state2']!r} and left 'on' at "
+                f"{[e[0] for e in exits]} (life-2 loop time): a stale timed event")
+    else:
+        # re-entered during the clean-up: the new timer (from that moment) is the pending one
+        left = dur - downtime
+        if left > 0.2:
+            if info['state2'] != 'on' or len(exits) != 1 or abs(exits[0][0] - left) > 5e-3:
+                raise core.Violation(
+                    'timed-event-late' if exits else 'timed-event-missed',
+                    f"{where}: re-entered 'on' at the end of life 1 (+{t_end1:.3f} s), restart "
+                    f"{downtime} s later: expected 'on' expiring {left:.3f} s into life 2; "
+                    f"state {info['state2']!r}, exits {exits}")
+    ctx.count('timers_fired_on_time')
+
+
 def run_shard(ctx):
     for case in gen(ctx):
         run_one(case, ctx)
+    idx = 0
+    for ev in ('stop', 'start'):
+        for dur in (5.0, 12.0):
+            for run in (1.0, 3.5):
+                for down in (0.5, 2.0):
+                    idx += 1
+                    if idx % ctx.nshards != ctx.shard:
+                        continue
+                    case = {'two_lives': True, 'ev': ev, 'dur': dur, 'run': run, 'down': down}
+                    try:
+                        run_two_lives(case, ctx)
+                    except core.Violation as v:
+                        ctx.violation(case, v.key, v.msg)
+                    ctx.case_done(case, True)
 
 
 def replay(rep, ctx):
+    if rep['case'].get('two_lives'):
+        try:
+            run_two_lives(rep['case'], ctx)
+        except core.Violation as v:
+            ctx.violation(rep['case'], v.key, v.msg)
+        ctx.case_done(rep['case'], True)
+        return
     run_one(rep['case'], ctx)
